@@ -412,6 +412,8 @@ class Executor:
             for x in r:
                 if isinstance(x, S):
                     args.append(x.e)
+                elif isinstance(x, O) and getattr(class_model(x.cls), "as_str", None) is not None:
+                    args.append(class_model(x.cls).as_str(p, x))  # str subclasses format as their text
                 elif isinstance(x, (O, I, NoneV, B)):
                     args.append(ref_of(x))
                 else:
@@ -1045,6 +1047,11 @@ class Executor:
             self.unsupported(node, f"cannot pass {v} as str")
         if isinstance(v, NoneV):
             return O(NONE, t)
+        if isinstance(v, BM):
+            base_t = t[4:-1] if t.startswith("Opt[") else t
+            fn = getattr(CLASSES.get(base_t), "from_bound_method", None) if base_t in CLASSES else None
+            if fn is not None:
+                return fn(path, v)
         if isinstance(v, O):
             return O(v.e, t) if v.cls in ("Val",) else v
         if isinstance(v, (T, Py, Clo, BM, Coro, S, B, I)):
